@@ -1,16 +1,22 @@
 """C21 — free lists never hand out a node twice and never lose one (DESIGN 7, C21).
 
-Coq obligations: Properties/Properties_C21.v.  Correspondence: the extracted models of FreeList,
-TaggedFreeList and CachedFreeList (coq/Model/FreeList*.v, dispatcher FreeListAll.run_case) against the real
-classes (harness/C21/main.cpp) under the same deterministic schedules, event log compared line by line.
-Monitor on the real code: ownership map (double_get) during the run and a quiescent drain (lost/extra/dup)
-after it."""
+Coq obligations: Properties/Properties_C21.v (theorems for every schedule).
+Correspondence: the extracted models of FreeList, TaggedFreeList and CachedFreeList (coq/Model/FreeList*.v,
+dispatcher FreeListAll.run_case) against the real classes (harness/C21/main.cpp) under the same deterministic
+schedules, event logs compared line by line.
+Monitors on the real code: ownership map (double_get) during the run, quiescent drain (lost/extra/dup) after it,
+watchdog (hang).
+Cases: corpus, random programs x schedules aimed at the re-add race / ABA window / cache-slot collisions, and a
+systematic sweep: ALL schedules with at most `switches` context switches at arbitrary points (then run to
+completion) of fixed 2-thread x 2-operation programs on 2 nodes."""
 import os, json, itertools
+from concurrent.futures import ThreadPoolExecutor
 import vcheck, conc_check
 
 VARIANT_NAMES = {0: "FreeList", 1: "TaggedFreeList", 2: "CachedFreeList<FreeList,4>", 3: "CachedFreeList<TaggedFreeList,4>"}
 LFUEL = 60
 EXTRA = ("-Wl,--no-as-needed", "-latomic")
+FLAG = 2147483648
 
 
 def mk_case(cid, variant, nnodes, k, owners, threads, sched, slots=None):
@@ -20,9 +26,9 @@ def mk_case(cid, variant, nnodes, k, owners, threads, sched, slots=None):
     return {"id": cid, "cfg": cfg, "threads": threads, "sched": sched}
 
 
-def gen_program(rng, nthreads, nnodes, k, owners, maxops):
-    """ops per thread; puts are only generated when the thread can hold something at that point (best effort:
-    the model skips a put with no node, and so does the harness)"""
+def gen_program(rng, nthreads, owners, maxops):
+    """puts are generated only when the thread may hold something at that point (optimistic count: a get may
+    return nullptr, the later put is then skipped by model and harness alike)"""
     threads = []
     for t in range(nthreads):
         have = sum(1 for o in owners if o == t)
@@ -33,7 +39,7 @@ def gen_program(rng, nthreads, nnodes, k, owners, maxops):
                 have -= 1
             else:
                 ops.append([1])
-                have += 1          # optimistic: the get may return nullptr, then a later put is skipped
+                have += 1
         threads.append(ops)
     return threads
 
@@ -48,19 +54,19 @@ def gen_sched(rng, nthreads, kind):
         return s
     if kind == 2:
         # re-add race: one thread (the getter) runs to just after its refs CAS (begin, ld head, ld refs, cas refs
-        # = 4 steps, + 1 with the next load = ABA window), then stalls while the others run whole operations
+        # = 4 steps; + 1 = after the next load: the ABA window), then stalls while the others run whole operations
         g = rng.below(nthreads)
-        stall = 4 + rng.below(2)
-        s = [g] * stall
+        s = [g] * (4 + rng.below(2))
         others = [t for t in range(nthreads) if t != g] or [g]
         for _ in range(1 + rng.below(4)):
             s += [rng.choice(others)] * (3 + rng.below(20))
         s += [g] * (1 + rng.below(4))
         s += [rng.below(nthreads) for _ in range(rng.below(30))]
         return s
-    # kind 3: two stalls: first thread a stalls inside get, then thread b stalls inside add_knowing (after its
-    # refs store), then a resumes
-    a = rng.below(nthreads); b = (a + 1 + rng.below(nthreads - 1)) % nthreads if nthreads > 1 else a
+    # kind 3: two stalls: thread a stalls inside get, thread b stalls inside add_knowing_refcount_is_zero (after its
+    # refs store) or inside its own get, then a resumes
+    a = rng.below(nthreads)
+    b = (a + 1 + rng.below(nthreads - 1)) % nthreads if nthreads > 1 else a
     s = [a] * (3 + rng.below(4)) + [b] * (2 + rng.below(12)) + [a] * (1 + rng.below(6)) + [b] * (1 + rng.below(8))
     s += [rng.below(nthreads) for _ in range(rng.below(40))]
     return s
@@ -75,41 +81,68 @@ def gen_cases(ctx, n, prefix="g", variants=(0, 0, 0, 1, 2, 2, 3)):
         nnodes = 1 + rng.below(3)
         k = rng.below(nnodes + 1)
         owners = [rng.below(nthreads) for _ in range(nnodes - k)]
-        threads = gen_program(rng, nthreads, nnodes, k, owners, 4)
+        threads = gen_program(rng, nthreads, owners, 4)
         sched = gen_sched(rng, nthreads, rng.below(4))
-        # cache slots: mostly colliding (that is where the exchange matters)
+        # cache slots: mostly colliding (that is where the exchange on a slot matters)
         slots = [rng.below(2) if rng.chance(3, 4) else rng.below(4) for _ in range(nthreads)]
         cases.append(mk_case("%s%d" % (prefix, i), variant, nnodes, k, owners, threads, sched, slots))
     return cases
 
 
-def dfs_cases(variant, limit=None):
-    """all schedules of 2 threads x 2 ops x 2 nodes: enumerated as schedule prefixes over {0,1} of bounded length;
-    the scheduler's rule (first enabled thread from the entry on) makes every interleaving reachable by some
-    0/1 string; strings longer than the run are harmless.  Programs: the four that exercise the re-add race."""
-    progs = [
-        (2, 2, [], [[[1], [2, 0]], [[1], [2, 0]]]),
-        (2, 1, [0], [[[2, 0], [1]], [[1], [2, 0]]]),
-        (2, 2, [], [[[1], [1]], [[1], [2, 0]]]),
-        (2, 0, [0, 1], [[[2, 0], [1]], [[2, 0], [1]]]),
-    ]
-    return progs
+# 2 threads x 2 operations x 2 nodes: (nnodes, k, owners, threads)
+SWEEP_PROGRAMS = [
+    (2, 2, [], [[[1], [2, 0]], [[1], [2, 0]]]),       # get;put  ||  get;put        both nodes on the list
+    (2, 1, [0], [[[2, 0], [1]], [[1], [2, 0]]]),      # put;get  ||  get;put        one node held by thread 0
+    (2, 2, [], [[[1], [1]], [[1], [2, 0]]]),          # get;get  ||  get;put
+    (2, 0, [0, 1], [[[2, 0], [1]], [[2, 0], [1]]]),   # put;get  ||  put;get        both nodes held
+]
 
 
-def classify(lines):
-    """features of a model log used for the coverage numbers"""
+def sweep_cases(variant, pidx, switches, maxlen, slots=(0, 0)):
+    """all schedules of a 2-thread program with at most `switches` context switches: thread s runs x1 steps, the
+    other x2 steps, ... (x_i in 0..maxlen), then whoever's turn it is runs to completion, then the other."""
+    nnodes, k, owners, threads = SWEEP_PROGRAMS[pidx]
+    out = []
+    seen = set()
+    for start in (0, 1):
+        for lens in itertools.product(range(maxlen + 1), repeat=switches):
+            sched = []
+            cur = start
+            for x in lens:
+                sched += [cur] * x
+                cur ^= 1
+            sched += [cur] * 120
+            key = tuple(sched)
+            if key in seen:
+                continue
+            seen.add(key)
+            out.append(mk_case("w%d_%d_%d" % (variant, pidx, len(out)), variant, nnodes, k, owners, threads, sched, list(slots)))
+    return out
+
+
+def impl_features(lines):
+    """features of an implementation log (it carries the values read/written)"""
     f = set()
     for l in lines:
         t = l.split(" ")
-        if len(t) >= 4 and t[1] == "cas" and t[3] == "0":
+        if len(t) < 4 or t[1] in ("ev", "begin"):
+            continue
+        if t[1] == "cas" and t[3] == "0":
             f.add("cas_fail")
-        if len(t) >= 2 and t[1] == "st":
-            f.add("add_path")
+        if len(t) >= 6 and t[4].startswith("i"):
+            rd, wr = int(t[4][1:]), int(t[5][1:])
+            if t[1] == "fas" and rd == FLAG + 1:
+                f.add("readd_by_getter")            # the re-add race: last reference dropped with the flag set
+            if t[1] == "faa" and (wr - rd) % (1 << 32) == FLAG and rd != 0:
+                f.add("put_found_references")       # put() leaves the add to the last reference holder
+            if t[1] == "faa" and (wr - rd) % (1 << 32) == FLAG - 1:
+                f.add("add_cas_failed")             # add_knowing_refcount_is_zero lost the head CAS
+            if t[1] == "faa" and (wr - rd) % (1 << 32) == FLAG - 1 and rd != 1:
+                f.add("add_handed_over")            # ... and somebody took a reference meanwhile
     return f
 
 
 def monitor_verdict(extra):
-    """-> list of (kind, line) for every monitor line that reports a violation"""
     bad = []
     for x in extra:
         t = x.split()
@@ -137,16 +170,27 @@ WHAT = {
 }
 
 
-def run_impl_batches(ctx, impl, cases, tag):
-    """the harness exits with status 3 on a hang (after printing the hung case id): run the rest in a new process"""
+def new_stats():
+    return {"n": 0, "diverged": 0, "steps": 0, "shapes": set(), "contended": set(), "features": {}, "by_variant": {}, "fuel": 0, "events": {}}
+
+
+def merge_stats(a, b):
+    a["n"] += b["n"]; a["diverged"] += b["diverged"]; a["steps"] += b["steps"]; a["fuel"] += b["fuel"]
+    a["shapes"] |= b["shapes"]; a["contended"] |= b["contended"]
+    for key in ("features", "by_variant", "events"):
+        for k, v in b[key].items():
+            a[key][k] = a[key].get(k, 0) + v
+
+
+def run_impl(impl, cases, path):
+    """the harness exits with status 3 on a hang (after printing the hung case id): the rest runs in a new process"""
     logs = {}
     rest = list(cases)
     rounds = 0
     while rest and rounds < 20:
         rounds += 1
-        cf = os.path.join(ctx.work, "%s_impl%d.txt" % (tag, rounds))
-        conc_check.write_cases(cf, rest)
-        rc, out = vcheck.sh([impl, cf], timeout=900)
+        conc_check.write_cases(path, rest)
+        rc, out = vcheck.sh([impl, path], timeout=900)
         part = conc_check.parse_logs(out)
         logs.update(part)
         hung = [cid for cid, l in part.items() if l["end"] == "hang"]
@@ -159,110 +203,69 @@ def run_impl_batches(ctx, impl, cases, tag):
     return logs
 
 
-def run_both(ctx, model, impl, cases, tag):
-    cf = os.path.join(ctx.work, tag + ".txt")
+def run_chunk(work, model, impl, cases, tag):
+    cf = os.path.join(work, tag + "_m.txt")
     conc_check.write_cases(cf, cases)
     rc1, out1 = vcheck.sh("%s %d < %s" % (model, 20000, cf), timeout=900)
     mlog = conc_check.parse_logs(out1)
-    ilog = run_impl_batches(ctx, impl, cases, tag)
-    return mlog, ilog
-
-
-def evaluate(ctx, cases, mlog, ilog, stats, report=True):
-    """compare logs, read monitors.  returns (first_divergence or None, monitor_hits)"""
+    ilog = run_impl(impl, cases, os.path.join(work, tag + "_i.txt"))
+    st = new_stats()
     first_div = None
     hits = []
     for c in cases:
         m = mlog.get(c["id"]); i = ilog.get(c["id"])
         v = c["cfg"][0]
+        st["n"] += 1
         if i is not None:
             for kind, line in monitor_verdict(i["extra"]):
-                hits.append((kind, c, line))
-                if report:
-                    ctx.violation("%s: %s" % (VARIANT_NAMES.get(v, v), WHAT[kind]), {"case": c, "monitor": line, "impl_log": i["lines"]})
+                hits.append((kind, c, line, i["lines"]))
         if m is None or i is None:
-            stats["diverged"] += 1
+            st["diverged"] += 1
             if first_div is None:
                 first_div = (c, {"index": -1, "model": "<no output>" if m is None else "ok", "impl": "<no output>" if i is None else "ok", "prefix": []})
             continue
-        stats["steps"] += len(i["lines"])
+        st["steps"] += len(i["lines"])
         d = conc_check.compare(m, i)
         shape = hash((v, tuple(m["lines"])))
-        stats["shapes"].add(shape)
-        f = classify(m["lines"])
+        st["shapes"].add(shape)
+        f = impl_features(i["lines"])
         if "cas_fail" in f:
-            stats["contended"].add(shape)
-        if "add_path" in f:
-            stats["add_path"] += 1
-        stats["by_variant"][v] = stats["by_variant"].get(v, 0) + 1
+            st["contended"].add(shape)
+        for x in f:
+            st["features"][x] = st["features"].get(x, 0) + 1
+        st["by_variant"][v] = st["by_variant"].get(v, 0) + 1
         if m["end"] == "fuel" or i["end"] == "fuel":
-            stats["fuel"] += 1
+            st["fuel"] += 1
         for l in m["lines"]:
             t = l.split(" ")
             if len(t) >= 3 and t[1] == "ev":
-                stats["events"][t[2]] = stats["events"].get(t[2], 0) + 1
+                st["events"][t[2]] = st["events"].get(t[2], 0) + 1
                 if t[2] == "ret_get" and t[3] == "-1":
-                    stats["events"]["ret_get_null"] = stats["events"].get("ret_get_null", 0) + 1
+                    st["events"]["ret_get_null"] = st["events"].get("ret_get_null", 0) + 1
         if d is not None:
-            stats["diverged"] += 1
+            st["diverged"] += 1
             if first_div is None:
                 first_div = (c, d)
-    return first_div, hits
+    return st, first_div, hits
 
 
-def dfs_all(ctx, model, impl, stats):
-    """thorough tier: exhaustive DFS over all schedules of 2 threads x 2 ops x 2 nodes.  A schedule is a 0/1
-    string; the set of distinct runs is explored by extending the string while the run is longer than it."""
-    total = 0
+def process(ctx, model, impl, cases, stats, tag, report=True, chunk=1500):
+    """run model and implementation on all cases (chunks in parallel), compare, read the monitors"""
+    chunks = [cases[i:i + chunk] for i in range(0, len(cases), chunk)]
     first_div = None
-    for variant in (0, 1, 2):
-        for (nnodes, k, owners, threads) in dfs_cases(variant):
-            frontier = [[]]
-            seen_logs = set()
-            depth = 0
-            while frontier and depth < 64:
-                cases = []
-                for j, s in enumerate(frontier):
-                    for b in (0, 1):
-                        cases.append(mk_case("d%d_%d_%d" % (depth, j, b), variant, nnodes, k, owners, threads, s + [b], [0, 0]))
-                # run the model only to find which prefixes are still live (run longer than the prefix and distinct)
-                cf = os.path.join(ctx.work, "dfs.txt")
-                conc_check.write_cases(cf, cases)
-                rc1, out1 = vcheck.sh("%s %d < %s" % (model, 20000, cf), timeout=900)
-                mlog = conc_check.parse_logs(out1)
-                ilog = run_impl_batches(ctx, impl, cases, "dfs")
-                fd, hits = evaluate(ctx, cases, mlog, ilog, stats)
-                total += len(cases)
-                if fd is not None and first_div is None:
-                    first_div = fd
-                nxt = []
-                for c in cases:
-                    m = mlog.get(c["id"])
-                    if m is None:
-                        continue
-                    nsteps = sum(1 for l in m["lines"] if l.split(" ")[1] != "ev")
-                    # the prefix decided the first len(sched) steps; keep it only if the run goes on after it and
-                    # both threads are still running at that point (otherwise the continuation is forced)
-                    key = tuple(m["lines"][:])
-                    if nsteps > len(c["sched"]):
-                        pre = []
-                        cnt = 0
-                        for l in m["lines"]:
-                            if l.split(" ")[1] != "ev":
-                                cnt += 1
-                            pre.append(l)
-                            if cnt == len(c["sched"]):
-                                break
-                        pk = tuple(pre)
-                        if pk in seen_logs:
-                            continue
-                        seen_logs.add(pk)
-                        nxt.append(c["sched"])
-                frontier = nxt
-                depth += 1
-                if total > 400000:
-                    break
-    return total, first_div
+    all_hits = []
+    with ThreadPoolExecutor(max_workers=max(2, min(12, vcheck.NCPU - 2))) as ex:
+        futs = [ex.submit(run_chunk, ctx.work, model, impl, ch, "%s%d" % (tag, j)) for j, ch in enumerate(chunks)]
+        for fu in futs:
+            st, fd, hits = fu.result()
+            merge_stats(stats, st)
+            if fd is not None and first_div is None:
+                first_div = fd
+            all_hits += hits
+    if report:
+        for kind, c, line, lines in all_hits:
+            ctx.violation("%s: %s" % (VARIANT_NAMES.get(c["cfg"][0], c["cfg"][0]), WHAT[kind]), {"case": c, "monitor": line, "impl_log": lines})
+    return first_div, all_hits
 
 
 def run(ctx):
@@ -271,40 +274,61 @@ def run(ctx):
     model = conc_check.build_model(ctx, "Extract_FreeList.v")
     impl = vcheck.cxx_build(os.path.join(vcheck.VERIF, "harness/C21/main.cpp"), os.path.join(ctx.work, "harness"),
                             hook=True, link_cds=False, extra=EXTRA)
-    stats = {"diverged": 0, "steps": 0, "shapes": set(), "contended": set(), "add_path": 0, "by_variant": {}, "fuel": 0, "events": {}}
+    stats = new_stats()
+    trusted = vcheck.STD_TRUSTED + ["hook layer: khizmax_libcds_verif::atomic<T>, baton scheduler, event log (hooks/include)", "ocaml/conc_main.ml event printer",
+                                    "harness/C21/main.cpp: pooled worker threads chosen by std::hash<std::thread::id> & 3 (cache slot), ownership-map, drain and watchdog monitors",
+                                    "libatomic's 16-byte compare-exchange (TaggedFreeList, -mcx16)"]
+    assumptions = ["sequential consistency: memory_order arguments are not modelled", "compare_exchange_weak never fails spuriously under the hook",
+                   "fewer than 2^31-1 threads (the 31-bit reference count of FreeList does not overflow into the flag bit): hypothesis of the theorems",
+                   "TaggedFreeList: fewer than 2^64 successful CASes on the head (the tag does not wrap)",
+                   "client discipline: a thread puts only nodes it holds; nodes are not freed while the list is in use",
+                   "std::hash<std::thread::id> & (CacheSize-1) of a worker thread is what the harness computes for it (CachedFreeList slot)"]
 
     if ctx.replay:
         obj = json.load(open(ctx.replay))
         cases = [obj["case"]]
-        mlog, ilog = run_both(ctx, model, impl, cases, "replay")
-        fd, hits = evaluate(ctx, cases, mlog, ilog, stats)
+        fd, hits = process(ctx, model, impl, cases, stats, "replay")
         if fd is not None and not hits:
             ctx.violation("step correspondence between LV.Model.FreeList* and cds/intrusive/free_list*.h does not hold on the replayed case",
                           {"case": fd[0], "first_divergence": fd[1]}, no_input=True)
         ctx.coverage.update({"evaluations": 1, "distinct_nontrivial": len(stats["contended"]), "rule": "replay of one case"})
-        return ctx.finish(vcheck.STD_TRUSTED, [])
+        return ctx.finish(trusted, assumptions)
 
-    n = 6000 if ctx.thorough() else 1500
     cases = []
     cdir = os.path.join(vcheck.VERIF, "corpus", "C21")
     for f in sorted(os.listdir(cdir)) if os.path.isdir(cdir) else []:
         if f.endswith(".json"):
             cases.append(json.load(open(os.path.join(cdir, f))))
     ncorpus = len(cases)
-    cases += gen_cases(ctx, n)
-    mlog, ilog = run_both(ctx, model, impl, cases, "cases")
-    first_div, hits = evaluate(ctx, cases, mlog, ilog, stats)
-    dfs_total = 0
+    nrandom = 24000 if ctx.thorough() else 6000
+    cases += gen_cases(ctx, nrandom)
+    samples = cases[ncorpus:ncorpus + 2]
+    first_div, hits = process(ctx, model, impl, cases, stats, "c")
+    nsweep = 0
+    sweep_desc = []
+    # systematic sweep: every schedule with at most `sw` context switches
+    plan = []
     if ctx.thorough():
-        dfs_total, fd2 = dfs_all(ctx, model, impl, stats)
+        for v in (0, 1, 2):
+            for p in range(len(SWEEP_PROGRAMS)):
+                plan.append((v, p, 3, 22))
+        plan.append((3, 0, 3, 16))
+        plan.append((0, 0, 4, 13)); plan.append((0, 1, 4, 13))
+    else:
+        plan = [(0, 0, 2, 24), (0, 1, 2, 24), (0, 3, 2, 24), (1, 0, 2, 16), (2, 1, 2, 20)]
+    for (v, p, sw, ml) in plan:
+        sc = sweep_cases(v, p, sw, ml)
+        nsweep += len(sc)
+        sweep_desc.append({"variant": VARIANT_NAMES[v], "program": SWEEP_PROGRAMS[p][3], "context_switches": sw, "segment_lengths": "0..%d" % ml, "schedules": len(sc)})
+        fd2, h2 = process(ctx, model, impl, sc, stats, "w%d%d" % (v, p))
         first_div = first_div or fd2
+        hits += h2
 
     if (first_div is not None or not res.ok) and not hits:
         # the correspondence (or a proof) broke: look for a concrete failure of the property over more seeds
-        more = gen_cases(ctx, 6000, prefix="s")
-        ml2, il2 = run_both(ctx, model, impl, more, "search")
-        st2 = {"diverged": 0, "steps": 0, "shapes": set(), "contended": set(), "add_path": 0, "by_variant": {}, "fuel": 0, "events": {}}
-        fd2, hits2 = evaluate(ctx, more, ml2, il2, st2)
+        more = gen_cases(ctx, 30000, prefix="s")
+        st2 = new_stats()
+        fd2, hits2 = process(ctx, model, impl, more, st2, "s")
         if not hits2 and first_div is not None:
             c, d = first_div
             ctx.violation("step correspondence between LV.Model.FreeList* and cds/intrusive/free_list*.h no longer holds (%s)" % VARIANT_NAMES.get(c["cfg"][0], "?"),
@@ -313,22 +337,18 @@ def run(ctx):
         ctx.violation("Coq obligations of C21 do not check: %s" % (res.failed[:2],), {"theorem": [f[2] for f in res.failed], "errors": res.failed[:3]}, no_input=True)
 
     ctx.coverage.update({
-        "evaluations": len(cases) + dfs_total, "distinct_nontrivial": len(stats["contended"]),
-        "rule": "program x schedule pairs (2-4 threads, 1-4 get/put ops each, 1-3 nodes, k of them initially on the list; uniform, bursty, "
-                "stall-after-refs-CAS (re-add race / ABA window) and double-stall schedules from one splitmix64 stream); distinct = distinct "
-                "(variant, model event log); non-trivial = at least one failed CAS (contention on head, refs or a cache slot)",
+        "evaluations": stats["n"], "distinct_nontrivial": len(stats["contended"]),
+        "rule": "program x schedule pairs: random (2-4 threads, 1-4 get/put ops each, 1-3 nodes, k of them initially on the list; uniform, bursty, "
+                "stall-after-refs-CAS (re-add race / ABA window) and double-stall schedules from one splitmix64 stream) + systematic sweep (all schedules "
+                "with at most N context switches of 2 threads x 2 ops x 2 nodes); distinct = distinct (variant, model event log); non-trivial = at least "
+                "one failed CAS in the implementation log (contention on head, refs or a cache slot)",
         "distinct_event_logs": len(stats["shapes"]), "impl_steps_compared": stats["steps"], "diverged": stats["diverged"],
-        "corpus_cases": ncorpus, "cases_per_variant": {VARIANT_NAMES[v]: c for v, c in sorted(stats["by_variant"].items())},
-        "cases_through_add_knowing_refcount_is_zero_or_put_store": stats["add_path"], "cases_cut_by_step_limit": stats["fuel"],
-        "client_events": stats["events"], "dfs_cases": dfs_total, "monitor_hits": len(hits),
-        "traces_validated_against_impl": len(cases) + dfs_total - stats["diverged"],
-        "samples": cases[ncorpus:ncorpus + 2] if len(cases) > ncorpus else cases[:1],
+        "corpus_cases": ncorpus, "random_cases": nrandom, "sweep_cases": nsweep, "sweeps": sweep_desc,
+        "cases_per_variant": {VARIANT_NAMES[v]: c for v, c in sorted(stats["by_variant"].items())},
+        "cases_with_feature": stats["features"], "cases_cut_by_step_limit": stats["fuel"],
+        "client_events": stats["events"], "monitor_hits": len(hits),
+        "traces_validated_against_impl": stats["n"] - stats["diverged"],
+        "samples": samples,
         "modelled": "cds::intrusive::FreeList (put, get, add_knowing_refcount_is_zero), TaggedFreeList (put, get), CachedFreeList<FreeList,4> and CachedFreeList<TaggedFreeList,4> (put, get)",
     })
-    return ctx.finish(vcheck.STD_TRUSTED + ["hook layer: khizmax_libcds_verif::atomic<T>, baton scheduler, event log (hooks/include)", "ocaml/conc_main.ml event printer",
-                                            "harness/C21/main.cpp: pooled worker threads chosen by std::hash<std::thread::id> & 3 (cache slot), ownership-map and drain monitors",
-                                            "libatomic's 16-byte compare-exchange (TaggedFreeList, -mcx16)"],
-                      ["sequential consistency: memory_order arguments are not modelled", "compare_exchange_weak never fails spuriously under the hook",
-                       "fewer than 2^31-1 threads (the 31-bit reference count of FreeList does not overflow into the flag bit)",
-                       "TaggedFreeList: fewer than 2^64 successful CASes on the head (the tag does not wrap)",
-                       "client discipline: a thread puts only nodes it holds; nodes are not freed while the list is in use"])
+    return ctx.finish(trusted, assumptions)
